@@ -479,6 +479,77 @@ def stage_registry_commute_corr(ctx: Ctx):
         _MODIFYING.clear()
 
 
+ISO_PROGS = [
+    'def f():\n    x = 1\n    if c:\n        \'\'\'bare\n        string\'\'\'\n        y = (a)\n    return [\n        p,  # cp\n        q,\n    ]\n',
+    'class K:\n    """doc\n    more"""\n    def m(self):\n        """mdoc\n          indented"""\n        s = """assigned\n   text"""\n        # lead\n        t = (1, 2)  # trail\n\n\n    v = 3\n',
+]
+
+
+def stage_call_isolation(ctx: Ctx):
+    """an option passed to a call affects only that call, a block's options only the block: ONE tree asked a sequence of read-only, option-sensitive queries
+    (own_src / copy / get_slice / get_docstr, each with or without a per-call option, inside or outside an options() block, between set_options calls)
+    answers every query as a fresh tree does under the same effective options - answers are cached per node, the cache must not carry options across calls"""
+    import fst
+    FST = fst.FST
+    rng = ctx.rng
+    opt_pool = {'docstr': [True, False, 'strict'], 'pars': [True, False, 'auto'], 'trivia': [False, True, 'all', 'block', (False, 'line'), ('all', 'block+1')],
+                'pep8space': [True, False, 1], 'norm': [True, False]}
+
+    def queries(root):
+        out = []
+        for f in root.walk(True):
+            if isinstance(f.a, (ast.stmt, ast.expr)) and f.parent is not None:
+                out.append((root.child_path(f, True), 'own_src'))
+                out.append((root.child_path(f, True), 'copy'))
+            for fld in ('body', 'elts'):
+                v = getattr(f.a, fld, None)
+                if isinstance(v, list) and len(v) > 1 and f.parent is not None:
+                    out.append((root.child_path(f, True), 'slice:' + fld))
+        return out
+
+    def ask(root, path, what, kw):
+        f = root.child_from_path(path)
+        try:
+            if what == 'own_src':
+                return f.own_src(**{k: v for k, v in kw.items() if k == 'docstr'})
+            if what == 'copy':
+                return f.copy(**kw).src
+            fld = what.split(':')[1]
+            return f.get_slice(0, 2, fld, **kw).src
+        except Exception as e:
+            return f'!{type(e).__name__}'
+    saved = FST.get_options() if hasattr(FST, 'get_options') else None
+    for src in ISO_PROGS:
+        qs = queries(FST(src, 'exec'))
+        for rnd in range(ctx.scale(25, 300)):
+            shared = FST(src, 'exec')
+            hist = []
+            glob = {}
+            focus = rng.sample(qs, min(len(qs), rng.choice((1, 1, 2))))     # the same node is asked again and again: its cached answers meet changing options
+            try:
+                for step in range(rng.randrange(2, 7)):
+                    path, what = rng.choice(focus)
+                    call_kw = {k: rng.choice(v) for k, v in opt_pool.items() if rng.random() < 0.3}
+                    block_kw = {k: rng.choice(v) for k, v in opt_pool.items() if rng.random() < 0.25}
+                    if rng.random() < 0.2:
+                        k = rng.choice(list(opt_pool))
+                        glob[k] = rng.choice(opt_pool[k])
+                        old = FST.set_options(**{k: glob[k]})
+                        hist.append(['set_options', k, repr(glob[k])])
+                    with FST.options(**block_kw):
+                        got = ask(shared, path, what, call_kw)
+                        want = ask(FST(src, 'exec'), path, what, call_kw)
+                    hist.append([what, path, repr(call_kw), repr(block_kw)])
+                    ctx.tick(('iso', src, tuple(map(tuple, hist))), 'isolation:' + what.split(':')[0])
+                    if got != want:
+                        ctx.violation(f'call-isolation|{what.split(":")[0]}', 'a query answers differently from the same query on a fresh tree under the same options: an option leaked from an earlier call or block',
+                                      {'src': src, 'history': hist, 'got': got, 'fresh_tree_gives': want})
+                        break
+            finally:
+                # restore the documented defaults changed through set_options
+                FST.set_options(docstr=True, pars='auto', trivia=True, pep8space=True, norm=False)
+
+
 def run(ctx: Ctx):
     ctx.rule = ('(1) random option traces over 1-3 real threads in generated lock-step interleavings (set_options / options() enter / exit normal or with '
                 'exception / get_option with per-call dict), every option name incl. unknown and call-only names, values from a 43-value universe; model vs '
@@ -493,6 +564,7 @@ def run(ctx: Ctx):
     run_guarded(ctx, stage_options_corr)
     run_guarded(ctx, stage_block_oracle)
     run_guarded(ctx, stage_domain_oracle)
+    run_guarded(ctx, stage_call_isolation)
     progs = [p for p in corpus(ctx.rng, gen=ctx.scale(10, 40)) if len(p) < 1500]
     run_guarded(ctx, stage_registry_commute_corr)
     run_guarded(ctx, stage_concurrent, progs)
